@@ -189,11 +189,17 @@ ExcState(U, L, M) ==     \* a+_a a+_b .. a_j a_i |Phi>  (annihilators reversed)
   IN ApplyString(ops, Len(ops), [s |-> 1, D |-> RefDet(M)])
 
 AmpValue(psi, U, L, M) ==
+  IF Cardinality({U[k] : k \in 1..Len(U)}) < Len(U) \/ Cardinality({L[k] : k \in 1..Len(L)}) < Len(L)
+  THEN 0       \* a repeated creator / annihilator: the string vanishes
+  ELSE
   LET st == ExcState(U, L, M)
       s == IF Len(U) = 2 THEN P - 1 ELSE 1
   IN IF st.s = 0 THEN 0 ELSE FMul(s, FMul(st.s, psi[st.D]))
 
-TupSet(S, k) == [1..k -> S]
+(* tuples without a repeated entry; a tuple with a repeated index is not     *)
+(* tabulated: the tensor model gives 0 for it (antisymmetry of amplitudes), *)
+(* which is also what AmpValue gives                                        *)
+TupSet(S, k) == {t \in [1..k -> S] : Cardinality({t[j] : j \in 1..k}) = k}
 AmpTable(psi, M, maxcls) ==
   LET keys == UNION {{<<2, k>> \o u \o l : u \in TupSet(Virts(M), k), l \in TupSet(Occs(M), k)} :
                      k \in 1..maxcls}
